@@ -483,10 +483,62 @@ func (ch c15) tlsGroup(c *core.Ctx) {
 	}
 }
 
+// listenersGroup: one server serves two listeners; sixteen clients connect through both at the same time
+// (whatever the accept loops keep per connection is not kept in common without synchronisation: the race
+// detector watches) and every client is served.
+func (ch c15) listenersGroup(c *core.Ctx) {
+	prog := &hs.Prog{Stmts: []*hs.Stmt{{ID: "t", Cols: textCols(1), Ops: []hs.Op{{K: "row", Vals: []any{"v"}}, {K: "complete", Tag: "SELECT 1"}}}}}
+	for round := 0; round < 4; round++ {
+		env := hs.Start(hs.Parse)
+		l2 := tr.NewListener()
+		serve2 := make(chan error, 1)
+		go func() { serve2 <- env.Srv.Serve(l2) }()
+		<-l2.Ready()
+		start := make(chan struct{})
+		var wg sync.WaitGroup
+		errs := make([]string, 16)
+		for i := range errs {
+			wg.Add(1)
+			go func(i int) {
+				defer wg.Done()
+				<-start
+				l := env.L
+				if i%2 == 1 {
+					l = l2
+				}
+				cl := hs.NewClient(l.Dial(&hs.Sess{Default: func(string) *hs.Prog { return prog }}))
+				if err := cl.StartupOK(fmt.Sprintf("l%d", i)); err != nil {
+					errs[i] = "start-up: " + err.Error()
+					return
+				}
+				if o, _ := cl.Step(pg.Query("t")); pg.Types(mustMsgs(o)) != "TDCZ" {
+					errs[i] = "query answered " + replyKinds(o)
+				}
+				cl.Finish()
+			}(i)
+		}
+		close(start)
+		wg.Wait()
+		env.Stop()
+		<-serve2
+		c.Count("connections_through_two_listeners_at_once", int64(len(errs)))
+		c.Eval(fmt.Sprintf("two listeners %d", round), true)
+		for i, e := range errs {
+			if e != "" {
+				c.Violate("listeners-group", "a client connecting while others connect through another listener of the same server is not served as it is alone", fmt.Sprintf("round %d client %d: %s", round, i, e), nil)
+				return
+			}
+		}
+	}
+}
+
 func (ch c15) Run(c *core.Ctx) {
 	nb := ch.Batches(c.Tier)
 	if c.Batch%4 == 2 && c.Begin(70000000) {
 		ch.tlsGroup(c)
+	}
+	if c.Batch%4 == 3 && c.Begin(70000001) {
+		ch.listenersGroup(c)
 	}
 	ngroups, reps := 640, 3
 	if c.Tier == "thorough" {
